@@ -1022,11 +1022,28 @@ def check_hash_input_coverage(ck, R):
         ns = fx.nodes(st) if st is not None else []
         return ns[0] if ns else None
 
+    # the parameter that stands for the code object, per function of the unit: the digester's and the dispatchers' own, and
+    # that of a helper which every call inside the unit hands the caller's code object (`_attr_values(o, ...)`)
+    code_params = dict(unit.entries)
+    grew = True
+    while grew:
+        grew = False
+        for f_ in unit.funcs.values():
+            if f_.name in code_params:
+                continue
+            sites = [(cfi_, c_) for cfi_ in unit_fis for c_ in fa_of(cfi_).calls(f_.name) if callee_of(fa_of(cfi_), c_) is f_]
+            for p_ in f_.params:
+                if sites and all(cfi_ is not outer.fi and len(b_) == 1 and isinstance(b_[0], ast.Name) and code_params.get(cfi_.name) == b_[0].id
+                                 and unit.funcs.get(cfi_.name) is cfi_ for (cfi_, c_) in sites for b_ in [bound_args(c_, f_, p_)]):
+                    code_params[f_.name] = p_
+                    grew = True
+                    break
+
     def code_param(n):
-        """the name that stands for the code object in the function node `n` belongs to (the digester, or a function that hands its
-        parameter on to it), else None"""
+        """the name that stands for the code object in the function node `n` belongs to (the digester, a function that hands its
+        parameter on to it, or a helper that is handed it), else None"""
         fx = owner.get(id(n))
-        return unit.entries.get(fx.fi.name) if fx is not None and unit.funcs.get(fx.fi.name) is fx.fi else None
+        return code_params.get(fx.fi.name) if fx is not None and unit.funcs.get(fx.fi.name) is fx.fi else None
 
     for n in fed_nodes.values():
         attrs = []
@@ -1070,6 +1087,12 @@ def check_hash_input_coverage(ck, R):
         f = call.func
         if unit.hashes_code(call, var):
             return True
+        if isinstance(f, ast.Name) and depth < 3 and f.id in h.fi.params and h.fi is not outer.fi:
+            # a callback parameter: it is the hasher if that is what every call of this function inside the unit binds to it
+            sites = [(cx_, c_) for cfi_ in unit_fis for cx_ in [fa_of(cfi_)] for c_ in cx_.calls(h.fi.name) if callee_of(cx_, c_) is h.fi]
+            bound = [(cx_, bound_args(c_, h.fi, f.id)) for (cx_, c_) in sites]
+            if sites and all(len(b_) == 1 and is_hasher_ref(b_[0], hx=cx_) for (cx_, b_) in bound):
+                return True
         if isinstance(f, ast.Name) and depth < 3:
             # a local alias of the hasher
             for st in h.stmts(ast.Assign):
